@@ -53,6 +53,7 @@ import OxiddModel.Zbdd.DriverThresholdV
 import OxiddModel.Mtbdd.DriverThresholdV
 import OxiddModel.Tdd.DriverThresholdV
 import OxiddModel.Bcdd.DriverThresholdV
+import OxiddModel.Reorder.DriverZbddSwap
 
 open OxiddModel
 
@@ -124,7 +125,9 @@ def protos : List (String × Proto) := [
   ("c14tzv", OxiddModel.Zbdd.ThresholdDriverV.proto),
   ("c14tmv", OxiddModel.Mtbdd.ThresholdDriverV.proto),
   ("c14ttv", OxiddModel.Tdd.ThresholdDriverV.proto),
-  ("c14tcv", OxiddModel.Bcdd.ThresholdDriverV.proto)
+  ("c14tcv", OxiddModel.Bcdd.ThresholdDriverV.proto),
+  ("zbdd-swap", OxiddModel.Reorder.DriverZbddSwap.proto),
+  ("zbdd-swap-fixed", OxiddModel.Reorder.DriverZbddSwap.protoFixed)
 ]
 
 def main (args : List String) : IO UInt32 := do
